@@ -1,48 +1,98 @@
 mod determinism;
+mod driver;
+mod gen;
+mod gen_cat;
+mod gen_grp;
+mod harness;
+mod harness_cat;
+mod harness_grp;
+mod harness_ret;
+mod minimize;
+mod model;
+mod ops;
+mod profiles;
 mod rng;
 mod rt;
+mod scen;
+mod snapshot;
 mod world;
 
-use iggy::client::{MessageClient, StreamClient, TopicClient};
-use iggy::compression::compression_algorithm::CompressionAlgorithm;
-use iggy::consumer::Consumer;
-use iggy::identifier::Identifier;
-use iggy::messages::poll_messages::PollingStrategy;
-use iggy::messages::send_messages::{Message, Partitioning};
-use iggy::utils::expiry::IggyExpiry;
-use iggy::utils::topic_size::MaxTopicSize;
-use rt::{Sim, SimConfig};
-use world::{Knobs, StopKind, World};
+use std::io::{BufRead, Write};
+
+fn usage() -> i32 {
+    eprintln!("usage: sim check <Cxx> <quick|thorough> | run <Cxx> <seed> | replay <file> | worker <Cxx> | minimize <Cxx> <seed> <oracle> <tag> <out> | dump-case <Cxx> <seed> <out> | determinism <Cxx> <n>");
+    2
+}
+
+fn compact(out: &scen::RunOutput) -> serde_json::Value {
+    let mut v = serde_json::to_value(out).unwrap();
+    let ops_sample: Vec<String> = out.ops.iter().take(40).map(|o| {
+        let s = format!("{o:?}");
+        if s.len() > 160 { format!("{}…", &s[..160]) } else { s }
+    }).collect();
+    v["ops_sample"] = serde_json::json!(ops_sample);
+    v.as_object_mut().unwrap().remove("ops");
+    if let Some(a) = v["state_hashes"].as_array_mut() {
+        a.truncate(400);
+    }
+    v
+}
 
 fn main() {
     determinism::init_process();
     rt::install_panic_hook();
-    let seed: u64 = std::env::args().nth(1).and_then(|s| s.parse().ok()).unwrap_or(1);
-    let dir = std::path::PathBuf::from(format!("/dev/shm/iggy-sim-{}-{}", std::process::id(), seed));
-    let _ = std::fs::remove_dir_all(&dir);
-    std::fs::create_dir_all(&dir).unwrap();
-    let sim = Sim::new(SimConfig::new(seed));
-    let world = World::new(sim.clone(), dir.clone(), Knobs { messages_required_to_save: 3, ..Default::default() });
-    let w = world.clone();
-    let started = std::time::Instant::now();
-    let out = sim.block_on(async move {
-        w.start().await.unwrap();
-        let c = w.root_client().await.unwrap();
-        c.create_stream("s1", Some(1)).await.unwrap();
-        c.create_topic(&Identifier::numeric(1).unwrap(), "t1", 2, CompressionAlgorithm::None, None, Some(1), IggyExpiry::NeverExpire, MaxTopicSize::Unlimited).await.unwrap();
-        for i in 0..4u32 {
-            let mut msgs: Vec<Message> = (0..3).map(|j| Message::new(Some((i * 10 + j + 1) as u128), format!("m{i}-{j}").into(), None)).collect();
-            c.send_messages(&Identifier::numeric(1).unwrap(), &Identifier::numeric(1).unwrap(), &Partitioning::partition_id(1), &mut msgs).await.unwrap();
+    let args: Vec<String> = std::env::args().collect();
+    let code = match args.get(1).map(|s| s.as_str()) {
+        Some("check") if args.len() >= 4 => driver::check(&args[2], &args[3]),
+        Some("run") if args.len() >= 4 => {
+            let case = profiles::make_case(&args[2], args[3].parse().unwrap_or(1));
+            let out = scen::run_case(&case);
+            if std::env::var("VERIF_FULL").is_ok() {
+                println!("{}", serde_json::to_string_pretty(&out).unwrap());
+            } else {
+                for v in &out.violations {
+                    println!("VIOL {}/{}/{} @op{}: {}", v.prop, v.oracle, v.tag, v.op_index, v.detail);
+                }
+                println!("seed={} steps={} hash={} ops={} states={} nontrivial={} err={:?} probes={:?}", out.seed, out.steps, out.trace_hash, out.ops.len(), out.distinct_states, out.nontrivial, out.harness_error, out.stats.probes);
+            }
+            if out.violations.is_empty() { 0 } else { 1 }
         }
-        let p = c.poll_messages(&Identifier::numeric(1).unwrap(), &Identifier::numeric(1).unwrap(), Some(1), &Consumer::default(), &PollingStrategy::offset(0), 100, false).await.unwrap();
-        println!("polled {} current {}", p.messages.len(), p.current_offset);
-        drop(c);
-        w.restart(StopKind::GracefulDrained).await.unwrap();
-        let c = w.root_client().await.unwrap();
-        let p = c.poll_messages(&Identifier::numeric(1).unwrap(), &Identifier::numeric(1).unwrap(), Some(1), &Consumer::default(), &PollingStrategy::offset(0), 100, false).await.unwrap();
-        println!("after restart polled {} current {}", p.messages.len(), p.current_offset);
-        p.messages.len()
-    });
-    println!("out={out:?} steps={} hash={:x} panics={:?} wall={:?}", sim.steps(), sim.trace_hash(), sim.panics(), started.elapsed());
-    let _ = std::fs::remove_dir_all(&dir);
+        Some("worker") if args.len() >= 3 => {
+            let stdin = std::io::stdin();
+            let stdout = std::io::stdout();
+            for line in stdin.lock().lines().map_while(Result::ok) {
+                let Ok(seed) = line.trim().parse::<u64>() else { continue };
+                let case = profiles::make_case(&args[2], seed);
+                let out = scen::run_case(&case);
+                let mut lock = stdout.lock();
+                let _ = writeln!(lock, "{}", compact(&out));
+                let _ = lock.flush();
+            }
+            0
+        }
+        Some("minimize") if args.len() >= 7 => {
+            if minimize::minimize(&args[2], args[3].parse().unwrap_or(1), &args[4], &args[5], &args[6]) { 0 } else { 1 }
+        }
+        Some("dump-case") if args.len() >= 5 => {
+            let mut case = profiles::make_case(&args[2], args[3].parse().unwrap_or(1));
+            case.note = "unminimised case (generated from the seed)".into();
+            let text = serde_json::to_string_pretty(&serde_json::json!({"expect": {"property": args[2]}, "case": case})).unwrap();
+            if std::fs::write(&args[4], text).is_ok() { 0 } else { 2 }
+        }
+        Some("replay") if args.len() >= 3 => minimize::replay(&args[2]),
+        Some("determinism") if args.len() >= 4 => {
+            // prints "seed trace_hash steps violations" per seed; the caller diffs two executions
+            let n: u64 = args[3].parse().unwrap_or(10);
+            let base: u64 = std::env::var("VERIF_SEED").ok().and_then(|s| s.parse().ok()).unwrap_or(1) * 1_000_000;
+            for seed in base..base + n {
+                let case = profiles::make_case(&args[2], seed);
+                let out = scen::run_case(&case);
+                let viol: Vec<String> = out.violations.iter().map(|v| format!("{}/{}/{}@{}", v.prop, v.oracle, v.tag, v.op_index)).collect();
+                println!("{seed} {} {} {} {} {:?}", out.trace_hash, out.steps, out.sim_micros, out.distinct_states, viol);
+            }
+            0
+        }
+        _ => usage(),
+    };
+    std::process::exit(code);
 }
